@@ -49,7 +49,45 @@ type frameSpec struct {
 	cutAt            int    // >=0: the frame is truncated to this many bytes
 	flagsFO          uint16 // flags and fragment offset word (0x4000 = don't fragment)
 	cutAtTotLen      bool   // the frame ends where its total-length field says (no bytes beyond it)
+	optStyle         int    // how the IP option area is filled (see ipOptionBytes)
 	udpLenField      int    // > 0: written into the UDP length field instead of the true length (minus one: 0 means "true length")
+}
+
+// ipOptionBytes fills an IP option area of n bytes (a multiple of 4) with a well-formed
+// option list: 0 all no-operation; 1 no-operation then end-of-option-list padding; 2 router
+// alert (RFC 2113); 3 record route (RFC 791); 4 a security option (RFC 1108 style, 11
+// octets) - each followed by end-of-option-list octets up to the header length. (Source
+// route options are not generated: a hardened reader may legitimately refuse them.)
+func ipOptionBytes(style, n int) []byte {
+	out := make([]byte, 0, n)
+	switch style {
+	case 0:
+		for len(out) < n {
+			out = append(out, 1)
+		}
+		return out
+	case 1:
+		for len(out) < n-1 {
+			out = append(out, 1)
+		}
+	case 2:
+		out = append(out, 0x94, 0x04, 0x00, 0x00)
+	case 3:
+		if n >= 8 {
+			out = append(out, 0x07, 0x07, 0x04, 10, 0, 0, 254)
+		}
+	case 4:
+		if n >= 12 {
+			out = append(out, 0x82, 0x0b, 0, 0, 0, 0, 0, 0, 0, 0, 0)
+		}
+	}
+	if len(out) > n {
+		out = out[:0]
+	}
+	for len(out) < n {
+		out = append(out, 0) // end of option list, then padding
+	}
+	return out
 }
 
 // buildFrame encodes an IPv4/UDP frame with correct checksums for the header as written.
@@ -69,8 +107,8 @@ func buildFrame(f frameSpec) []byte {
 	b[9] = f.proto
 	copy(b[12:16], f.srcIP[:])
 	copy(b[16:20], f.dstIP[:])
-	for i := 20; i < hl; i++ {
-		b[i] = 1 // IP option: no-operation
+	if hl > 20 && hl <= len(b) {
+		copy(b[20:hl], ipOptionBytes(f.optStyle, hl-20))
 	}
 	if hl <= len(b) {
 		binary.BigEndian.PutUint16(b[10:], ^csum1071(b[:hl]))
@@ -394,7 +432,8 @@ func (st *rawState) frame(i int) ([]byte, string) {
 	switch t.Weighted(8, 3, 3, 2, 2, 2, 2, 2, 2, 2, 1, 1, 1, 2, 2) {
 	case 1:
 		f.ihl = 6 + t.Choose(10)
-		tag = fmt.Sprintf("ip-options ihl=%d", f.ihl)
+		f.optStyle = t.Choose(5)
+		tag = fmt.Sprintf("ip-options ihl=%d style=%d", f.ihl, f.optStyle)
 		s.Fault("frame-ip-options")
 	case 2:
 		f.padding = 1 + t.Choose(46)
@@ -501,7 +540,8 @@ func (st *rawState) frame(i int) ([]byte, string) {
 	// runt UDP header behind IP options, a foreign port on a padded frame, ...).
 	if f.version == 4 && f.ihl == 5 && t.Coin(1, 4) {
 		f.ihl = 6 + t.Choose(10)
-		tag += fmt.Sprintf(" +ip-options ihl=%d", f.ihl)
+		f.optStyle = t.Choose(5)
+		tag += fmt.Sprintf(" +ip-options ihl=%d style=%d", f.ihl, f.optStyle)
 		s.Fault("frame-ip-options-combined")
 	}
 	if f.padding == 0 && t.Coin(1, 5) {
